@@ -207,6 +207,14 @@ func main() {
 			binary.BigEndian.PutUint32(fr[:4], uint32(len(payload)+1000))
 			os.Stdout.Write(fr)
 			die("oversize")
+		case "neglen", "neglen2":
+			// a length prefix with the top bit set (2^31, 2^32 - 1), a few bytes, then gone
+			pre := []byte{0x80, 0, 0, 0}
+			if fault == "neglen2" {
+				pre = []byte{0xff, 0xff, 0xff, 0xff}
+			}
+			os.Stdout.Write(append(pre, []byte("junk")...))
+			die("neglen")
 		case "exitafter", "exit", "noreply":
 			die("noreply")
 		default: // ok, wrongname, wrongversion, nofeature, dotdot, samepath, ...
